@@ -100,7 +100,12 @@ def main(v: Verdict) -> None:
     # ... and an enum of the package used as a type in another module (it must not be taken for a class of another library)
     fpk = write_pkg({"__init__.py": "", "formod.py": FOREIGN_SRC, "flibuse.py": FOREIGN_LIB_USE,
                      "colors.py": "from enum import Enum\n\n\nclass Color(Enum):\n    RED = 1\n\n\ndef other_colors() -> int:\n    ...\n",
-                     "enumuser.py": "from forgnpk.colors import Color\n\n\ndef paint(c: Color) -> Color:\n    ...\n"}, "forgnpk", siblings=FOREIGN_LIB)
+                     "enumuser.py": "from forgnpk.colors import Color\n\n\ndef paint(c: Color) -> Color:\n    ...\n",
+                     # names of the package that are no analysed classes (a class under 'if', a NewType) used as types elsewhere
+                     "compat.py": "import sys\n\nif sys.version_info >= (3, 0):\n    class Handle:\n        pass\n\n\ndef open_handle() -> int:\n    ...\n",
+                     "compatuser.py": "from forgnpk.compat import Handle\n\n\ndef use_handle(h: Handle) -> Handle:\n    ...\n",
+                     "ids.py": "from typing import NewType\n\nUserId = NewType(\"UserId\", int)\n\n\ndef other_ids() -> int:\n    ...\n",
+                     "idsuser.py": "from forgnpk.ids import UserId\n\n\ndef use_id(u: UserId) -> UserId:\n    ...\n"}, "forgnpk", siblings=FOREIGN_LIB)
     for nc in (False, True):
         jobs.append({"src": fpk, "opts": Opts(nc=nc), "timeout": 300})
         meta.append((fpk.name, f"foreign-classes nc={nc}"))
